@@ -736,6 +736,11 @@ func uniteConfigs(a, b *Config) {
 		unite(va, vb, context{parent: parent, field: k}, func(v value) { a.fields.set(k, v) })
 	}
 	arrA := a.fields.array()
+	if arrA == nil && b.fields.array() != nil {
+		// b spells the namespace as a list, possibly an empty one: a is a list
+		// as well then, no matter which of the two has been found first
+		a.fields.a = []value{}
+	}
 	for i, vb := range b.fields.array() {
 		i := i
 		var va value
